@@ -1065,7 +1065,9 @@ func newConn(u *Upgrader, c net.Conn, subprotocol string, remoteCompressionEnabl
 		Engine:                   u.Engine,
 		Conn:                     c,
 		subprotocol:              subprotocol,
-		enableCompression:        u.enableCompression,
+		// RSV1 is only meaningful when permessage-deflate was negotiated
+		// for this connection, not merely enabled in the options.
+		enableCompression:        u.enableCompression && remoteCompressionEnabled,
 		remoteCompressionEnabled: remoteCompressionEnabled,
 		compressionLevel:         u.compressionLevel,
 		onClose:                  u.onClose,
